@@ -275,6 +275,10 @@ package olareg
 //@ pred methodMutates(m) := m == "PUT" || m == "POST" || m == "PATCH" || m == "DELETE"
 
 //@ func (s *Server) ServeHTTP(resp http.ResponseWriter, req *http.Request)
+//@   -- the rate limit is kept per client address: without a forwarding header the key is the remote address up to its LAST
+//@   -- colon (the port), so that two IPv6 clients never share an entry (C19: other addresses are unaffected)
+//@   assert [rate-key-is-the-address-without-port]{C19} before "s.rateLimit.Get(": reqheader(req, "X-Forwarded-For") == "" ==>
+//@             arg1 == (lastIndex(req.RemoteAddr, ":") > 0 ? substr(req.RemoteAddr, 0, lastIndex(req.RemoteAddr, ":")) : req.RemoteAddr)
 //@   props C15 C14 C19 C16
 //@   requires s != nil && resp != nil && req != nil && req.URL != nil && resp.status == 0 && !fault() && !held(s.mu) && !truncated()
 //@   requires s.store != nil ==> serverInv(s) && cacheInv(s.referrerCache) && !held(s.referrerCache.mu) && pagesNonEmpty(s)
